@@ -10,6 +10,11 @@
 (* The property (ReopenInvisible / Durable) is stated separately from the  *)
 (* actions.  SetMin models the repaired code (fixes/C36-*.patch);          *)
 (* SetMinAsOriginallyCoded keeps what the code did before.                 *)
+(* Crash points: every public call is ONE atomic durable step (a single Put *)
+(* or a single batch).  CrashDuring(callImage) = the process dies somewhere *)
+(* inside the call and the storage is opened again: what it loads is the    *)
+(* disk image before the call or the image after the whole call, never a    *)
+(* mix.  CrashDuringImages lets a sensitivity run offer intermediate images.*)
 EXTENDS Integers, FiniteSets, TLC
 
 CONSTANTS Chunks, Producers
@@ -18,7 +23,7 @@ VARIABLES
   attr,     \* [Chunks -> [p : Producers, e : Nat, sz : Nat]]  scenario configuration, never changes
   pend, cert, em, w, min,
   dPend, dAcc, dMin,
-  res       \* tag of the last call: "init" "ok" "rejected" "err" "reopen"
+  res       \* tag of the last call: "init" "ok" "rejected" "err" "reopen" "crash"
 
 svars == <<attr, pend, cert, em, w, min, dPend, dAcc, dMin, res>>
 
@@ -60,19 +65,25 @@ SetCert(c, valid) ==
                             ELSE cert' = cert /\ res' = "err"
   /\ UNCHANGED <<attr, pend, em, w, min, dPend, dAcc, dMin>>
 
+(* disk images <<pending table, accepted table, min slot>> *)
+Image       == <<dPend, dAcc, dMin>>
+PutImage(c) == <<dPend \cup {c}, dAcc, dMin>>                      \* after putVerifiedChunk
+SetMinImage(t, save, deletePendingRecordOfSaved) ==                \* after the SetMin batch
+  LET dropped == {c \in em : attr[c].e < t} \cap (pend \ save)     \* only chunks still in the pending map are deleted from disk
+  IN <<(IF deletePendingRecordOfSaved THEN dPend \ save ELSE dPend) \ dropped, dAcc \cup save, t>>
+
 (* SetMin(updatedMin, saveChunks); callers pass ids of pending chunks and never move the minimum back *)
 SetMinGeneric(t, save, deletePendingRecordOfSaved) ==
   /\ t >= min /\ save \subseteq pend
   /\ LET afterSave == pend \ save
          expired   == {c \in em : attr[c].e < t}
-         dropped   == expired \cap afterSave          \* only chunks still in the pending map are deleted from disk
+         img       == SetMinImage(t, save, deletePendingRecordOfSaved)
      IN /\ pend' = afterSave \ expired
         /\ em' = em \ expired
         /\ cert' = cert \cap pend'
         /\ w' = [p \in Producers |-> w[p] - SumSz(attr, {c \in pend \ pend' : attr[c].p = p})]
-        /\ dAcc' = dAcc \cup save
-        /\ dPend' = (IF deletePendingRecordOfSaved THEN dPend \ save ELSE dPend) \ dropped
-  /\ min' = t /\ dMin' = t
+        /\ dPend' = img[1] /\ dAcc' = img[2] /\ dMin' = img[3]
+  /\ min' = t
   /\ res' = "ok"
   /\ UNCHANGED attr
 
@@ -81,14 +92,20 @@ SetMinAsOriginallyCoded(t, save) == SetMinGeneric(t, save, FALSE)
 
 (* NewChunkStorage on the same database: memory := load(disk).  cs = certificates that survive; the code  *)
 (* keeps none, the property does not care.                                                                *)
-Reopen(cs) ==
-  /\ cs \subseteq dPend
-  /\ pend' = dPend /\ cert' = cs
-  /\ em' = {c \in dPend : attr[c].e # 0}
-  /\ w' = WeightOf(attr, dPend)
-  /\ min' = dMin
-  /\ res' = "reopen"
-  /\ UNCHANGED <<attr, dPend, dAcc, dMin>>
+LoadFrom(img, cs) ==
+  /\ dPend' = img[1] /\ dAcc' = img[2] /\ dMin' = img[3]
+  /\ pend' = img[1] /\ cert' = cs \cap img[1]
+  /\ em' = {c \in img[1] : attr[c].e # 0}
+  /\ w' = WeightOf(attr, img[1])
+  /\ min' = img[3]
+  /\ UNCHANGED attr
+
+Reopen(cs) == cs \subseteq dPend /\ LoadFrom(Image, cs) /\ res' = "reopen"
+
+(* the process dies inside a public call whose complete durable effect is callImage, then the storage is  *)
+(* opened again on what reached the disk                                                                  *)
+CrashDuringImages(images, cs) == \E img \in images : LoadFrom(img, cs) /\ res' = "crash"
+CrashDuring(callImage, cs)    == CrashDuringImages({Image, callImage}, cs)
 
 -----------------------------------------------------------------------------
 (* observable projection named by the statement *)
